@@ -77,6 +77,7 @@ def main(argv):
     tier = os.environ.get("VERIF_TIER", "quick")
     if "--tier" in argv:
         tier = argv[argv.index("--tier") + 1]
+    os.environ["VERIF_TIER_EFFECTIVE"] = tier
     seed = int(os.environ.get("VERIF_SEED", "0") or 0)
     jobs = int(os.environ.get("H5V_JOBS", "16"))
     try:
